@@ -4,11 +4,14 @@
             every function-local class of every module is renamed consistently (suffix _q); parameters, attributes,
             globals and comprehension/lambda variables keep their names
   reformat  every module is re-emitted by ast.unparse (comments dropped, layout and quoting normalised)
+  ifswap    every `if X: A else: B` (B not an elif chain) becomes `if not X: B else: A` (and `if not X` loses its not)
+  mirror    every single comparison `a OP b` becomes `b OP' a` (a < b -> b > a, a == b -> b == a, ...)
 
 A check that reports a violation on such a tree which it does not report on the original depends on spelling or
 layout, not on behaviour.  (The pinned test suite passes on both transformed trees.)"""
 import ast, os, shutil, sys, symtable
 KEEP=set(x for x in os.environ.get('ALPHA_KEEP','').split(',') if x)
+DO_PARAMS=False
 
 def rename_module(src, fname, suffix='_q', do_funcs=True, do_locals=True):
     tree = ast.parse(src)
@@ -74,11 +77,20 @@ def rename_module(src, fname, suffix='_q', do_funcs=True, do_locals=True):
                 for a in n.args.args: out.add(a.arg)
         return out
     # renaming: resolve each Name to its binding scope
+    # keyword names used in any call of the module: a parameter that some call passes by keyword keeps its name
+    kw_used=set()
+    for n in ast.walk(tree):
+        if isinstance(n,ast.Call):
+            for k in n.keywords:
+                if k.arg: kw_used.add(k.arg)
     def resolve(name, sc):
         while sc is not None:
             if name in sc.globals: return None
             if name in sc.nonlocals: sc=sc.parent; continue
-            if name in sc.params: return None
+            if name in sc.params:
+                # parameters of nested helpers are positional in this code base: renamable (do_params)
+                if DO_PARAMS and sc.parent is not None and name not in kw_used and name not in ('self','cls'): return ('local',sc)
+                return None
             if name in sc.locals: return ('local',sc)
             if name in sc.nested: return ('func',sc)
             sc=sc.parent
@@ -121,6 +133,11 @@ def rename_module(src, fname, suffix='_q', do_funcs=True, do_locals=True):
         elif isinstance(n,(ast.FunctionDef,ast.AsyncFunctionDef)):
             sc=scopes.get(n)
             if sc and sc.parent is not None and do_funcs and n.name not in outer_comp[n]: n.name+=suffix; cnt+=1
+        elif isinstance(n,ast.arg) and DO_PARAMS:
+            fn=parents.get(parents.get(n))   # arg -> arguments -> FunctionDef/Lambda
+            if isinstance(fn,(ast.FunctionDef,ast.AsyncFunctionDef)) and fn in scopes and scopes[fn].parent is not None \
+                    and n.arg not in kw_used and n.arg not in ('self','cls') and n.arg not in outer_comp[fn] and do_locals:
+                n.arg+=suffix; cnt+=1
         elif isinstance(n,ast.ClassDef):
             fn=enclosing(n,parents)
             if fn in scopes and do_locals and n.name not in outer_comp[fn] and resolve(n.name,scopes[fn]): n.name+=suffix
@@ -131,8 +148,10 @@ def rename_module(src, fname, suffix='_q', do_funcs=True, do_locals=True):
             n.names=[x+suffix if (x not in outer_comp[fn] and do_locals) else x for x in n.names]
     return ast.unparse(tree), cnt
 
-def alpha_tree(root, do_funcs=True, do_locals=True):
+def alpha_tree(root, do_funcs=True, do_locals=True, do_params=False):
     """rename in place under root/droop (and the driver scripts)"""
+    global DO_PARAMS
+    DO_PARAMS = do_params
     total = 0
     files = []
     for dp, dn, fns in os.walk(os.path.join(root, 'droop')):
@@ -149,6 +168,45 @@ def alpha_tree(root, do_funcs=True, do_locals=True):
             fh.write(new)
         total += c
     return total
+
+
+_MIRROR = {ast.Lt: ast.Gt, ast.Gt: ast.Lt, ast.LtE: ast.GtE, ast.GtE: ast.LtE, ast.Eq: ast.Eq, ast.NotEq: ast.NotEq}
+
+
+class _Mirror(ast.NodeTransformer):
+    def visit_Compare(self, n):
+        self.generic_visit(n)
+        if len(n.ops) == 1 and type(n.ops[0]) in _MIRROR:
+            return ast.copy_location(ast.Compare(left=n.comparators[0], ops=[_MIRROR[type(n.ops[0])]()], comparators=[n.left]), n)
+        return n
+
+
+class _IfSwap(ast.NodeTransformer):
+    def visit_If(self, n):
+        self.generic_visit(n)
+        if n.orelse and not (len(n.orelse) == 1 and isinstance(n.orelse[0], ast.If)):
+            t = n.test
+            nt = t.operand if isinstance(t, ast.UnaryOp) and isinstance(t.op, ast.Not) else ast.UnaryOp(op=ast.Not(), operand=t)
+            return ast.copy_location(ast.If(test=nt, body=n.orelse, orelse=n.body), n)
+        return n
+
+
+def shape_tree(root, kind):
+    n = 0
+    for dp, dn, fns in os.walk(root):
+        dn[:] = [d for d in dn if d != '__pycache__']
+        for f in fns:
+            if f.endswith('.py'):
+                p = os.path.join(dp, f)
+                t = ast.parse(open(p, encoding='utf-8').read())
+                t = (_Mirror() if kind == 'mirror' else _IfSwap()).visit(t)
+                ast.fix_missing_locations(t)
+                new = ast.unparse(t) + '\n'
+                compile(new, p, 'exec')
+                with open(p, 'w', encoding='utf-8') as fh:
+                    fh.write(new)
+                n += 1
+    return n
 
 
 def reformat_tree(root):
@@ -172,5 +230,7 @@ if __name__ == '__main__':
     kind, root = sys.argv[1], sys.argv[2]
     if kind == 'reformat':
         print('reformatted', reformat_tree(root))
+    elif kind in ('ifswap', 'mirror'):
+        print('transformed', shape_tree(root, kind))
     else:
-        print('renamed', alpha_tree(root, do_funcs=kind != 'alpha-locals', do_locals=kind != 'alpha-funcs'))
+        print('renamed', alpha_tree(root, do_funcs=kind != 'alpha-locals', do_locals=kind != 'alpha-funcs', do_params=kind == 'alpha-params'))
